@@ -7,7 +7,7 @@ export CARGO_NET_OFFLINE=true
    MstVerif.Props.C01 MstVerif.Props.C02 MstVerif.Props.C03 MstVerif.Props.C04 MstVerif.Props.C05 MstVerif.Props.C06 \
    MstVerif.Props.C07 MstVerif.Props.C08 MstVerif.Props.C09 MstVerif.Props.C10 MstVerif.Props.C11 MstVerif.Props.C12 \
    MstVerif.Props.C13 MstVerif.Props.C14 MstVerif.Props.C15 MstVerif.Props.C16 MstVerif.Props.C17 MstVerif.Props.C18 \
-   MstVerif.Proofs.Extras)
+   MstVerif.Proofs.Extras MstVerif.Props.NonVacuity)
 cd harness
 cargo build --offline --target-dir target/feat-none
 cargo build --offline --release --target-dir target/feat-none
